@@ -359,16 +359,20 @@ def check_C11(tier):
     cfx = F.build_many([(c, "rel") for c in ccl])
     stage = ("minimal_lexical::lemire::", "minimal_lexical::bellerophon::", "minimal_lexical::extended_float::")
     _e4_report(rep, "C11", results, lambda j: "%s stage" % j["config"], {"%s stage" % c: cfx[(c, "rel")] for c in ccl},
-               fn_filter=lambda o: o["kind"].startswith(("post:", "carry-test")) and (o["kind"].startswith("post:") or o["fn"].startswith(stage)),
+               fn_filter=lambda o: o["kind"].startswith(("post:", "carry-test", "scale-consumed")) and (o["kind"].startswith("post:") or o["fn"].startswith(stage)),
                floor_per_group=3)
     n_carry = sum(1 for r in results for res in r.get("results", []) for o in res["obs"] if o["kind"].startswith("carry-test"))
     rep.floor("carry tests on wrapping sums in the Eisel-Lemire product", n_carry, 1)
+    n_scale = sum(1 for r in results for res in r.get("results", []) for o in res["obs"] if o["kind"].startswith("scale-consumed"))
+    rep.floor("call sites of normalize in the Bellerophon stage (scale-consumed rule)", n_scale, 2 * len([c for c in ccl if "compact" in c]))
     return rep.finish(
         "other",
         "Constant part of the middle stage: tie-window bounds (one-sided), table coverage of [SMALLEST,LARGEST]_POWER_OF_TEN, every table significand "
         "equals its definition and has its top bit set. Structural part (E4 over the monomorphic MIR of compute_float / bellerophon): every ordering "
         "test between a wrapping unsigned sum and one of its own addends is one of the four forms equivalent to the carry (r < x, x > r, r >= x, x <= r) "
-        "unless the other addend is provably non-zero -- the 128-bit product's high word is exact only if the carry is; and every call-free exit that "
+        "unless the other addend is provably non-zero -- the 128-bit product's high word is exact only if the carry is; the shift returned by "
+        "bellerophon::normalize is consumed at every call site, or every value flowing into error_is_accurate's error argument is provably zero there (a dropped "
+        "shift leaves the pending error in the unit of the un-normalised significand); and every call-free exit that "
         "returns a literal zero/infinity is implied by the exponent bound of its own path. Whether a definite answer is the correctly rounded one is NOT decided.",
         A_E4 + [A_TOOL, A_TARGET],
     )
